@@ -5,7 +5,7 @@
 From Coq Require Import List Arith Bool.
 Import ListNotations.
 From LCC Require Import Base.Util Model.Proj Model.Sched Model.Graph Model.Fixture Model.TaskSem Proofs.SchedP Proofs.ProtocolP
-     Proofs.GraphP Proofs.ShapeP.
+     Proofs.GraphP Proofs.ShapeP Proofs.TeardownOrderP.
 
 (* Setups come first and teardowns last: when a worker takes a task, every task it depends on — on success (a test on its
    suite's setup task, a suite setup on the session setup ...) or on mere completion (a suite teardown on the suite's setup
@@ -82,3 +82,64 @@ Example C03_witness_graph :
         mkTask KTest [5; 7] [2] []; mkTask KTest [5; 8] [2] []; mkTask KSuiteTeardown [5] [] [2; 3; 4];
         mkTask KSuiteEnd [5] [1; 3; 4; 5] []; mkTask KSessionTeardown [] [] [6]].
 Proof. vm_compute. reflexivity. Qed.
+
+(* ---- inside one phase (RunContext.run_setup_funcs / run_teardown_funcs of runner.py; Model/TaskSem.v, whose per-task atoms —
+   among them AtBegin, "this piece of user code is entered by the worker" — are compared with the real runner's trace for every
+   task of every co-simulated run). [rbegins r] is the sequence of pieces of user code entered so far. ---- *)
+
+(* The teardown loop enters the teardown code of what the setup kept in REVERSE order of [kept], each function exactly
+   once, whatever each teardown does (logs, failed checks, Exceptions, threads); it stops early only when a BaseException that
+   is not an Exception escaped (the worker thread dies), and then what it did enter is still a prefix of the reverse order. *)
+Theorem C03_teardown_loop_reverse_order : forall env suite kept r,
+  exists done rest, rev (teardowns_of kept) = done ++ rest /\
+    rbegins (run_teardown_funcs env suite kept r) = rbegins r ++ done /\
+    (rs_died (run_teardown_funcs env suite kept r) = false -> rest = []).
+Proof. exact teardown_funcs_reverse_order. Qed.
+Print Assumptions C03_teardown_loop_reverse_order.
+
+(* an Exception raised by a teardown does not stop the loop *)
+Theorem C03_teardown_loop_survives_exceptions : forall env suite l r,
+  rs_died r = false ->
+  (forall f r0, In (Some f) l -> match snd (call_tfun env f r0) with Some k => is_exception k = true | None => True end) ->
+  rs_died (run_teardown_list env suite l r) = false.
+Proof. exact teardown_list_survives_exceptions. Qed.
+Print Assumptions C03_teardown_loop_survives_exceptions.
+
+(* Setups then teardowns, for every list of (setup, teardown) pairs — fixtures of any scope, inject_fixtures, setup_suite /
+   teardown_suite, setup_test / teardown_test — and whatever the user code does: the teardowns later run are exactly those of
+   the maximal prefix [done] of the pairs whose setup completed without recording a failure, each once, in reverse order of
+   setup; the pair whose setup failed and the pairs after it are not torn down, what was set up before the failure still is.
+   Nothing is assumed of [r'], the state of the location when the teardowns start (consumers passed, failed, were skipped). *)
+Theorem C03_teardowns_in_reverse_order_of_setups : forall env suite suite' pairs r r1 kept r',
+  run_setup_funcs env suite pairs r [] = (r1, kept) -> sound_state r ->
+  rs_died (run_teardown_funcs env suite' kept r') = false ->
+  exists done rest, pairs = done ++ rest /\ kept = map snd done /\
+    rbegins (run_teardown_funcs env suite' kept r') = rbegins r' ++ rev (teardowns_of (map snd done)) /\
+    (rest = [] -> sound_state r1) /\
+    (rest <> [] -> rs_failed r1 = true \/ rs_died r1 = true).
+Proof. exact setups_then_teardowns. Qed.
+Print Assumptions C03_teardowns_in_reverse_order_of_setups.
+
+(* which setups were entered: those of [done] and of the first pair that failed, in order, nothing after it *)
+Theorem C03_setups_in_order_stop_at_first_failure : forall env suite pairs r kept0 r1 kept,
+  run_setup_funcs env suite pairs r kept0 = (r1, kept) -> sound_state r ->
+  exists done rest, pairs = done ++ rest /\ kept = kept0 ++ map snd done /\
+    (rest = [] -> sound_state r1 /\ rbegins r1 = rbegins r ++ setups_of done) /\
+    (forall q rest', rest = q :: rest' ->
+        (rs_failed r1 = true \/ rs_died r1 = true) /\ rbegins r1 = rbegins r ++ setups_of done ++ sf_owners (fst q)).
+Proof. exact setup_funcs_prefix. Qed.
+Print Assumptions C03_setups_in_order_stop_at_first_failure.
+
+(* sensitivity / non-vacuity: two fixtures are torn down 2 then 1, which is not the setup order; a failing second setup
+   leaves the first fixture torn down and the second and third not *)
+Theorem C03_teardown_in_setup_order_refuted :
+  let '(r1, kept) := run_setup_funcs (fun _ => IGlobal) None two_fixtures r_init [] in
+  rbegins r1 = [OFxSetup 1; OFxSetup 2] /\
+  rbegins (run_teardown_funcs (fun _ => IGlobal) None kept r_init) = [OFxTeardown 2; OFxTeardown 1] /\
+  rbegins (run_teardown_funcs (fun _ => IGlobal) None kept r_init) <> teardowns_of kept.
+Proof. exact forward_order_refuted. Qed.
+Example C03_failing_setup_witness :
+  let '(r1, kept) := run_setup_funcs (fun _ => IGlobal) None three_fixtures_second_fails r_init [] in
+  rbegins r1 = [OFxSetup 1; OFxSetup 2] /\ rs_failed r1 = true /\
+  rbegins (run_teardown_funcs (fun _ => IGlobal) None kept r_init) = [OFxTeardown 1].
+Proof. exact failing_setup_witness. Qed.
